@@ -417,4 +417,9 @@ def run(ctx):
     obs += lazy_rule(ctx)
     obs += wave8_rules(ctx)
     obs += wave10_rules(ctx)
+    # wave 11: whether `<wxs src>` links work does not depend on the order files were added: the group's flags only ever turn on,
+    # and importing a group merges everything it holds (shared with C20.order)
+    from share import relabel
+    from rules.c20 import order_rules
+    obs += relabel(order_rules(ctx), "C20.order", "C13.lazy/order")
     return obs
